@@ -44,7 +44,9 @@ pub enum Op {
     Add { ks: String, table: String, first: i64, last: i64, replicas: Vec<(Host, i32)> },
     /// arbitrary payload value bytes (`None`: the tablet key is absent from the payload)
     Raw { ks: String, table: String, value: Option<Vec<u8>> },
-    Refresh { peers: Vec<PeerSpec>, keyspaces: Vec<KsSpec> },
+    /// `partial`: only the peer list is re-read (`ClusterState::new_with_updated_topology`);
+    /// `keyspaces` then repeats the schema in force and is not handed to the driver
+    Refresh { peers: Vec<PeerSpec>, keyspaces: Vec<KsSpec>, partial: bool },
 }
 
 #[derive(Clone, Debug)]
@@ -137,7 +139,7 @@ impl Op {
             Op::Raw { ks, table, value } => json!({
                 "op": "raw", "ks": ks, "table": table, "value_hex": value.as_ref().map(|v| fw::hex(v)),
             }),
-            Op::Refresh { peers, keyspaces } => json!({"op": "refresh", "peers": peers_json(peers), "keyspaces": kss_json(keyspaces)}),
+            Op::Refresh { peers, keyspaces, partial } => json!({"op": "refresh", "partial": partial, "peers": peers_json(peers), "keyspaces": kss_json(keyspaces)}),
         }
     }
     pub fn from_json(v: &Value) -> Option<Op> {
@@ -155,7 +157,7 @@ impl Op {
                     .collect(),
             },
             "raw" => Op::Raw { ks: s("ks"), table: s("table"), value: v["value_hex"].as_str().map(fw::unhex) },
-            "refresh" => Op::Refresh { peers: peers_from_json(&v["peers"]), keyspaces: kss_from_json(&v["keyspaces"]) },
+            "refresh" => Op::Refresh { peers: peers_from_json(&v["peers"]), keyspaces: kss_from_json(&v["keyspaces"]), partial: v["partial"].as_bool().unwrap_or(false) },
             _ => return None,
         })
     }
@@ -472,7 +474,10 @@ impl<'r> World<'r> {
                     (Err(_), Verdict::Either { .. }) => Ok("either-refused"),
                 }
             }
-            Op::Refresh { peers, keyspaces } => {
+            Op::Refresh { peers, keyspaces, partial } => {
+                // a partial refresh carries the schema over: the model is told the schema in force
+                let keyspaces = if *partial { &self.keyspaces.clone() } else { keyspaces };
+                let partial = *partial;
                 let pd: Vec<PeerDesc> = peers.iter().enumerate().map(|(i, p)| peer_desc(p, i)).collect();
                 let kd: Vec<KeyspaceDesc> = keyspaces.iter().map(ks_desc).collect();
                 let rt = self.rt;
@@ -489,7 +494,13 @@ impl<'r> World<'r> {
                 let resolves_with_recreated = self.model.tables.values().flatten().any(|t| {
                     t.unresolved && t.full.iter().all(|(h, _)| peers.iter().any(|p| p.host == *h)) && t.visible.iter().any(|(h, _)| recreated.contains(h))
                 });
-                if let Err(p) = fw::catch(|| rt.block_on(probe.refresh(&pd, &kd))) {
+                if let Err(p) = fw::catch(|| rt.block_on(async {
+                    if partial {
+                        probe.refresh_topology(&pd).await
+                    } else {
+                        probe.refresh(&pd, &kd).await
+                    }
+                })) {
                     let sig = if resolves_with_recreated { "refresh:panic@tablet-resolved-while-coreplica-recreated" } else { "refresh:panic" };
                     return fail(sig, format!("metadata refresh panicked: {p}"));
                 }
